@@ -14,7 +14,7 @@ import gv
 PROP = "C01"
 REQ_PROPS = ["GV.Props.Props_C01"]
 REQ_RUN = ["GV.Mvcc.Run"]
-CLASSES = {1: "C01-K1", 2: "C01-K2", 3: "C01-K3", 4: "C01-K4", 5: "C01-K5", 6: "C01-K6", 7: "C01-K7"}
+CLASSES = {1: "C01-K1", 2: "C01-K2", 3: "C01-K3", 4: "C01-K4", 5: "C01-K5", 6: "C01-K6"}   # C01-K7 fixed by 752d5ee
 TAG = os.environ.get("GV_OUT_TAG", "")     # set by tools/seedtest.sh: keeps scratch runs apart from registered runs
 
 TRUSTED = [
@@ -100,7 +100,7 @@ def run(tier, seed, replay_file=None):
     for c in cases:
         c["_args"] = split_term(c)
     # one evaluation per history (Run.v c01_report): model == implementation, the failing positions with their
-    # classes, and the class predicates c01_k 1 .. 7 on this history
+    # classes, and the class predicates c01_k 1 .. 6 on this history
     both = gv.coq_eval(PROP + "_oracle" + TAG, REQ_RUN, ["c01_report %s" % c["_args"] for c in cases], shard=40)
     vals, kvals = [], []
     for c, v in zip(cases, both):
@@ -109,7 +109,7 @@ def run(tier, seed, replay_file=None):
             raise RuntimeError("unexpected oracle value: %s" % v[:200])
         c["coq"] = m.group(1)       # the evaluated correspondence term (gv.standard_flow re-reads the literal)
         vals.append(m.group(2))
-        kvals.append(dict(zip(range(1, 8), parse_bools(m.group(3)))))
+        kvals.append(dict(zip(range(1, 7), parse_bools(m.group(3)))))
     extra = derive_failures(cases, vals, kvals, CLASSES, "snapshot_ok")
     allc = cases + extra
     gv.standard_flow(chk, REQ_RUN, allc, proof, "C01")
